@@ -8,6 +8,8 @@ import TamocV.Model.Profile
 import Mathlib.Tactic.Ring
 import Mathlib.Tactic.Linarith
 import Mathlib.Tactic.NormNum
+import Mathlib.Tactic.FieldSimp
+import Mathlib.Tactic.Positivity
 
 namespace TamocV.Lemmas.C14
 open TamocV TamocV.Model.Profile TamocV.Lemmas.C07
@@ -353,5 +355,425 @@ theorem sgnOf_neg (x : ℝ) (h : x < 0) : sgnOf x = -1 := by
   unfold sgnOf
   have : ¬ (0 : ℝ) < x := not_lt.mpr (le_of_lt h)
   simp [Num.real_zero, h, this]
+
+theorem computePressure_forward_length (ρ : ℝ → ℝ → ℝ → ℝ) (z T S : List ℝ) (hn : 1 ≤ z.length)
+    (hpos : 0 < z.getD (z.length / 2) 0) :
+    ∃ P, computePressure ρ z T S false = some P ∧ P.length = z.length := by
+  unfold computePressure
+  simp only [Num.real_zero, Bool.false_eq_true, if_false]
+  rw [sgnOf_pos _ hpos]
+  obtain ⟨P', h1, h2, _, _⟩ := cp_forward ρ z T S z.length (z.length - 1) (by omega)
+    ((List.replicate z.length (0 : ℝ)).set 0
+      (101325 + ρ (T.getD 0 0) (S.getD 0 0) 101325 * 9.81 * 1 * z.getD 0 0)) (by simp)
+  refine ⟨P', ?_, h2⟩
+  have e : (ofSgn 1 : ℝ) = 1 := by unfold ofSgn; simp [Num.real_one]
+  simp only [e, Num.real_ofSci]
+  norm_num at h1 ⊢
+  exact h1
+
+/-! ### the invariant of a profile under the mutating operations (C07) -/
+
+/-- the data a profile holds are a well-formed interpolation table and its bookkeeping agrees with
+    them: fresh cache, uniform width matching the names, strictly increasing depths, at least two
+    rows, z_min / z_max = first / last stored depth -/
+structure Inv (p : Profile ℝ) : Prop where
+  fresh : Fresh p
+  width : ∃ k, Width k p.rows ∧ p.names.length = k
+  inc : StrictInc p.rows
+  two : 2 ≤ p.rows.length
+  zmin : p.zmin = (p.rows.map depth).headD 0
+  zmax : p.zmax = (p.rows.map depth).getLastD 0
+
+/-- `q` holds a table with the same depths and the same z-range as `p`, of uniform width -/
+structure SameGrid (p q : Profile ℝ) : Prop where
+  depths : q.rows.map depth = p.rows.map depth
+  zmin : q.zmin = p.zmin
+  zmax : q.zmax = p.zmax
+  width : ∃ k, Width k q.rows ∧ q.names.length = k
+
+theorem strictInc_iff (rows : List (List ℝ)) : StrictInc rows ↔ (rows.map depth).Pairwise (· < ·) := by
+  unfold StrictInc; rw [List.pairwise_map]
+
+theorem SameGrid.refl (p : Profile ℝ) (h : ∃ k, Width k p.rows ∧ p.names.length = k) : SameGrid p p :=
+  ⟨rfl, rfl, rfl, h⟩
+
+theorem SameGrid.trans {p q r : Profile ℝ} (h1 : SameGrid p q) (h2 : SameGrid q r) : SameGrid p r :=
+  ⟨h2.depths.trans h1.depths, h2.zmin.trans h1.zmin, h2.zmax.trans h1.zmax, h2.width⟩
+
+theorem inv_of_sameGrid {p q : Profile ℝ} (hp : Inv p) (h : SameGrid p q) (hf : Fresh q) : Inv q := by
+  have hlen : q.rows.length = p.rows.length := by
+    have := congrArg List.length h.depths
+    simpa using this
+  refine ⟨hf, h.width, ?_, by rw [hlen]; exact hp.two, ?_, ?_⟩
+  · rw [strictInc_iff, h.depths, ← strictInc_iff]; exact hp.inc
+  · rw [h.zmin, h.depths]; exact hp.zmin
+  · rw [h.zmax, h.depths]; exact hp.zmax
+
+theorem depth_set_succ (r : List ℝ) (i : Nat) (v : ℝ) : depth (r.set (i + 1) v) = depth r := by
+  cases r <;> simp [depth]
+
+theorem depth_append_of_ne_nil (r : List ℝ) (v : ℝ) (h : r ≠ []) : depth (r ++ [v]) = depth r := by
+  cases r with
+  | nil => exact absurd rfl h
+  | cons a t => simp [depth]
+
+theorem zipWith_map_eq (f : List ℝ → ℝ → List ℝ) (g : List ℝ → ℝ) (rows : List (List ℝ)) (col : List ℝ)
+    (hlen : col.length = rows.length) (hg : ∀ r ∈ rows, ∀ v, g (f r v) = g r) :
+    (List.zipWith f rows col).map g = rows.map g := by
+  induction rows generalizing col with
+  | nil => simp
+  | cons r tl ih =>
+    cases col with
+    | nil => simp at hlen
+    | cons v vs =>
+      simp only [List.zipWith_cons_cons, List.map_cons, List.length_cons, Nat.add_right_cancel_iff] at hlen ⊢
+      rw [hg r (by simp) v, ih vs hlen (fun x hx w => hg x (by simp [hx]) w)]
+
+theorem zipWith_forall (f : List ℝ → ℝ → List ℝ) (Q : List ℝ → Prop) (rows : List (List ℝ)) (col : List ℝ)
+    (h : ∀ r ∈ rows, ∀ v, Q (f r v)) : ∀ x ∈ List.zipWith f rows col, Q x := by
+  induction rows generalizing col with
+  | nil => simp
+  | cons r tl ih =>
+    cases col with
+    | nil => simp
+    | cons v vs =>
+      intro x hx
+      simp only [List.zipWith_cons_cons, List.mem_cons] at hx
+      rcases hx with rfl | hx
+      · exact h r (by simp) v
+      · exact ih vs (fun y hy w => h y (by simp [hy]) w) x hx
+
+/-- `interp_ds[name] = column` keeps the grid -/
+theorem setCol_sameGrid (p : Profile ℝ) (name : String) (col : List ℝ) (k : Nat) (hw : Width k p.rows)
+    (hn : p.names.length = k) (hlen : col.length = p.rows.length) : SameGrid p (p.setCol name col) := by
+  unfold Profile.setCol
+  split
+  · refine ⟨?_, rfl, rfl, k, ?_, hn⟩
+    · exact zipWith_map_eq _ depth _ _ hlen (fun r _ v => depth_set_succ r _ v)
+    · exact zipWith_forall _ (fun x => x.length = k + 1) _ _ (fun r hr v => by simp [hw r hr])
+  · refine ⟨?_, rfl, rfl, k + 1, ?_, by simp [hn]⟩
+    · apply zipWith_map_eq _ depth _ _ hlen
+      intro r hr v
+      apply depth_append_of_ne_nil
+      intro h0
+      have := hw r hr
+      simp [h0] at this
+    · exact zipWith_forall _ (fun x => x.length = k + 1 + 1) _ _ (fun r hr v => by simp [hw r hr])
+
+/-- unit conversion of one column keeps the grid -/
+theorem mapCol_sameGrid (p : Profile ℝ) (name : String) (f : ℝ → ℝ) (k : Nat) (hw : Width k p.rows)
+    (hn : p.names.length = k) : SameGrid p (p.mapCol name f) := by
+  unfold Profile.mapCol
+  split
+  · refine ⟨?_, rfl, rfl, k, ?_, hn⟩
+    · simp only [List.map_map]
+      apply List.map_congr_left
+      intro r _
+      exact depth_set_succ r _ _
+    · intro x hx
+      obtain ⟨r, hr, rfl⟩ := List.mem_map.mp hx
+      simp [hw r hr]
+  · exact SameGrid.refl p ⟨k, hw, hn⟩
+
+theorem sameGrid_length {p q : Profile ℝ} (h : SameGrid p q) : q.rows.length = p.rows.length := by
+  have := congrArg List.length h.depths
+  simpa using this
+
+theorem rebuild_sameGrid (p q : Profile ℝ) (h : SameGrid p q) : SameGrid p q.rebuild :=
+  ⟨h.depths, h.zmin, h.zmax, h.width⟩
+
+theorem foldl_sameGrid {β : Type} (p : Profile ℝ) (F : Profile ℝ → β → Profile ℝ)
+    (hF : ∀ q b, SameGrid p q → SameGrid p (F q b)) (l : List β) (q0 : Profile ℝ) (h0 : SameGrid p q0) :
+    SameGrid p (l.foldl F q0) := by
+  induction l generalizing q0 with
+  | nil => exact h0
+  | cons b bs ih => exact ih _ (hF q0 b h0)
+
+/-- the operations that only add / replace / convert columns keep the grid -/
+theorem step_sameGrid (ρ : ℝ → ℝ → ℝ → ℝ) (zt : Ztsp) (p : Profile ℝ) (hp : Inv p) (op : Op ℝ)
+    (hop : ∀ znew S1, op ≠ .extendDeeper znew S1) : SameGrid p (step ρ zt p op) := by
+  have hself : SameGrid p p := SameGrid.refl p hp.width
+  have hset : ∀ (q : Profile ℝ) (name : String) (col : List ℝ), SameGrid p q → col.length = p.rows.length →
+      SameGrid p (q.setCol name col) := by
+    intro q name col hq hlen
+    obtain ⟨k, hw, hn⟩ := hq.width
+    exact hq.trans (setCol_sameGrid q name col k hw hn (by rw [hlen, sameGrid_length hq]))
+  cases op with
+  | append data zcol vars =>
+    unfold step
+    simp only []
+    apply rebuild_sameGrid
+    apply foldl_sameGrid
+    · intro q v hq
+      split
+      · exact hq
+      · obtain ⟨k, hw, hn⟩ := hq.width
+        exact hq.trans (mapCol_sameGrid q _ _ k hw hn)
+    · apply foldl_sameGrid
+      · intro q v hq
+        split
+        · exact hq
+        · exact hset q _ _ hq (by simp)
+      · exact hself
+  | extendDeeper znew S1 => exact absurd rfl (hop znew S1)
+  | insertDensity P0 =>
+    cases P0 with
+    | none =>
+      unfold step
+      exact rebuild_sameGrid _ _ (hset p _ _ hself (by simp [densityColumn]))
+    | some q =>
+      by_cases hq : q ≤ 0 ∧ 0 ≤ q
+      · have e : step ρ zt p (Op.insertDensity (some q))
+            = ((p.setCol "density" (densityColumn ρ p none))).rebuild := by
+          simp only [step, Num.real_zero, hq, and_self, if_true]
+        rw [e]
+        exact rebuild_sameGrid _ _ (hset p _ _ hself (by simp [densityColumn]))
+      · have e : step ρ zt p (Op.insertDensity (some q)) = p := by
+          simp only [step, Num.real_zero, hq, if_false]
+        rw [e]; exact hself
+  | insertPotentialDensity =>
+    unfold step
+    exact rebuild_sameGrid _ _ (hset p _ _ hself (by simp [densityColumn]))
+  | insertBuoyancyFrequency =>
+    unfold step
+    exact rebuild_sameGrid _ _ (hset p _ _ hself (by simp))
+
+/-! #### extend_profile_deeper -/
+
+theorem linspace_eq (a b : ℝ) (m : Nat) :
+    linspace a b (m + 2) = (List.range (m + 2)).map (fun k : ℕ => (k : ℝ) * ((b - a) / ((m : ℝ) + 1)) + a) := by
+  unfold linspace
+  simp only []
+  apply List.map_congr_left
+  intro k _
+  have hc : (Num.ofNat (m + 2 - 1) : ℝ) = (m : ℝ) + 1 := by
+    show (((m + 2 - 1 : ℕ)) : ℝ) = _
+    have : m + 2 - 1 = m + 1 := by omega
+    rw [this]; push_cast; ring
+  have hk : (Num.ofNat k : ℝ) = (k : ℝ) := rfl
+  rw [hc, hk]
+  split
+  · rename_i h
+    have : k = m + 1 := by omega
+    subst this
+    have hne : (m : ℝ) + 1 ≠ 0 := by positivity
+    push_cast
+    field_simp
+    ring
+  · rfl
+
+theorem linspace_length (a b : ℝ) (m : Nat) : (linspace a b (m + 2)).length = m + 2 := by
+  unfold linspace; simp
+
+theorem linspace_pairwise (a b : ℝ) (m : Nat) (h : a < b) : (linspace a b (m + 2)).Pairwise (· < ·) := by
+  rw [linspace_eq, List.pairwise_map]
+  have hstep : 0 < (b - a) / ((m : ℝ) + 1) := div_pos (sub_pos.mpr h) (by positivity)
+  refine List.Pairwise.imp ?_ List.pairwise_lt_range
+  intro i j hij
+  have : (i : ℝ) < (j : ℝ) := by exact_mod_cast hij
+  nlinarith
+
+theorem linspace_ge (a b : ℝ) (m : Nat) (h : a < b) : ∀ y ∈ linspace a b (m + 2), a ≤ y := by
+  rw [linspace_eq]
+  intro y hy
+  obtain ⟨k, _, rfl⟩ := List.mem_map.mp hy
+  have hstep : 0 < (b - a) / ((m : ℝ) + 1) := div_pos (sub_pos.mpr h) (by positivity)
+  have : (0 : ℝ) ≤ (k : ℝ) := Nat.cast_nonneg k
+  nlinarith
+
+theorem linspace_getLastD (a b : ℝ) (m : Nat) : (linspace a b (m + 2)).getLastD 0 = b := by
+  unfold linspace
+  rw [List.range_succ, List.map_append]
+  simp
+
+theorem linspace_mid_pos (a b : ℝ) (h0 : 0 ≤ a) (h : a < b) :
+    0 < (linspace a b 50).getD ((linspace a b 50).length / 2) 0 := by
+  rw [linspace_length a b 48]
+  have hmem : (linspace a b 50).getD 25 0 ∈ linspace a b 50 := by
+    rw [List.getD_eq_getElem?_getD, List.getElem?_eq_getElem (by rw [linspace_length a b 48]; norm_num)]
+    simp
+  have hpw := linspace_pairwise a b 48 h
+  have h0mem : (linspace a b 50).getD 0 0 ∈ linspace a b 50 := by
+    rw [List.getD_eq_getElem?_getD, List.getElem?_eq_getElem (by rw [linspace_length a b 48]; norm_num)]
+    simp
+  -- entry 25 is strictly above entry 0, which is ≥ a ≥ 0
+  have hlt : (linspace a b 50).getD 0 0 < (linspace a b 50).getD 25 0 := by
+    have hl : 25 < (linspace a b 50).length := by rw [linspace_length a b 48]; norm_num
+    have hl0 : 0 < (linspace a b 50).length := by rw [linspace_length a b 48]; norm_num
+    rw [List.getD_eq_getElem?_getD, List.getD_eq_getElem?_getD, List.getElem?_eq_getElem hl,
+      List.getElem?_eq_getElem hl0]
+    simp only [Option.getD_some]
+    exact List.pairwise_iff_getElem.mp hpw 0 25 hl0 hl (by norm_num)
+  have := linspace_ge a b 48 h _ h0mem
+  have e : (50 : ℕ) / 2 = 25 := by norm_num
+  rw [e]
+  linarith
+
+theorem getValues1_length (c : Cache ℝ) (zmin zmax z : ℝ) (names : List String) :
+    (getValues1 c zmin zmax z names).length = names.length := by
+  unfold getValues1
+  simp [assign_length]
+
+theorem zipWith_cons_depth {β : Type} (g : β → List ℝ) (zs : List ℝ) (l : List β) (h : l.length = zs.length) :
+    (List.zipWith (fun z sp => z :: g sp) zs l).map depth = zs := by
+  induction zs generalizing l with
+  | nil => simp
+  | cons z tl ih =>
+    cases l with
+    | nil => simp at h
+    | cons b bs =>
+      simp only [List.length_cons, Nat.add_right_cancel_iff] at h
+      simp [depth, ih bs h]
+
+theorem zipWith_cons_forall {β : Type} (g : β → List ℝ) (Q : List ℝ → Prop) (zs : List ℝ) (l : List β)
+    (h : ∀ z sp, Q (z :: g sp)) : ∀ x ∈ List.zipWith (fun z sp => z :: g sp) zs l, Q x := by
+  induction zs generalizing l with
+  | nil => simp
+  | cons z tl ih =>
+    cases l with
+    | nil => simp
+    | cons b bs =>
+      intro x hx
+      simp only [List.zipWith_cons_cons, List.mem_cons] at hx
+      rcases hx with rfl | hx
+      · exact h z b
+      · exact ih bs x hx
+
+/-- the 50 appended rows: their depths are `linspace(z_max, z_new, 50)` and they have the table's width -/
+theorem extendRows_props (ρ : ℝ → ℝ → ℝ → ℝ) (zt : Ztsp) (p : Profile ℝ) (znew S1 : ℝ)
+    (h0 : 0 ≤ p.zmax) (h1 : p.zmax < znew) :
+    (extendRows ρ zt p znew S1).map depth = linspace p.zmax znew 50 ∧
+    ∀ r ∈ extendRows ρ zt p znew S1, r.length = p.names.length + 1 := by
+  unfold extendRows
+  simp only []
+  obtain ⟨P, hP, hPl⟩ := computePressure_forward_length ρ (linspace p.zmax znew 50)
+    ((linspace p.zmax znew 50).map (fun _ => (p.get1 p.zmax p.names).getD (p.names.idxOf zt.t) 0))
+    ((linspace p.zmax znew 50).map (fun z => (S1 - (p.get1 p.zmax p.names).getD (p.names.idxOf zt.s) 0)
+      / (znew - p.zmax) * (z - p.zmax) + (p.get1 p.zmax p.names).getD (p.names.idxOf zt.s) 0))
+    (by rw [linspace_length p.zmax znew 48]; norm_num) (linspace_mid_pos _ _ h0 h1)
+  simp only [Num.real_zero] at hP ⊢
+  rw [hP]
+  constructor
+  · apply zipWith_cons_depth
+    simp [hPl]
+  · apply zipWith_cons_forall
+    intro z sp
+    simp [Profile.get1, getValues1_length]
+
+theorem pairwise_dropLast_lt_last (D : List ℝ) (h : D.Pairwise (· < ·)) (hne : D ≠ []) :
+    ∀ x ∈ D.dropLast, x < D.getLast hne := by
+  have e := List.dropLast_concat_getLast hne
+  rw [← e, List.pairwise_append] at h
+  intro x hx
+  exact h.2.2 x hx _ (by simp)
+
+/-- `extend_profile_deeper(z_new)` with `0 ≤ z_max < z_new` keeps the invariant -/
+theorem extend_inv (ρ : ℝ → ℝ → ℝ → ℝ) (zt : Ztsp) (p : Profile ℝ) (hp : Inv p) (znew S1 : ℝ)
+    (h0 : 0 ≤ p.zmax) (h1 : p.zmax < znew) : Inv (step ρ zt p (.extendDeeper znew S1)) := by
+  obtain ⟨hd, hwid⟩ := extendRows_props ρ zt p znew S1 h0 h1
+  obtain ⟨k, hw, hn⟩ := hp.width
+  have hDne : p.rows.map depth ≠ [] := by
+    intro h
+    have := hp.two
+    simp [List.map_eq_nil_iff.mp h] at this
+  have hpw : (p.rows.map depth).Pairwise (· < ·) := (strictInc_iff _).mp hp.inc
+  have hlast : (p.rows.map depth).getLast hDne = p.zmax := by
+    rw [hp.zmax, List.getLastD_eq_getLast?, List.getLast?_eq_some_getLast hDne]; rfl
+  have hlen50 : (linspace p.zmax znew 50).length = 50 := linspace_length p.zmax znew 48
+  have hDrop2 : 1 ≤ (p.rows.map depth).dropLast.length := by
+    have := hp.two
+    simp only [List.length_dropLast, List.length_map]; omega
+  unfold step
+  refine ⟨rebuild_fresh _, ⟨k, ?_, hn⟩, ?_, ?_, ?_, ?_⟩
+  · -- width
+    intro r hr
+    show r.length = k + 1
+    have hr' : r ∈ p.rows.dropLast ++ extendRows ρ zt p znew S1 := hr
+    rcases List.mem_append.mp hr' with h | h
+    · exact hw r ((List.dropLast_sublist _).subset h)
+    · rw [hwid r h, hn]
+  · -- strictly increasing
+    rw [strictInc_iff]
+    show ((p.rows.dropLast ++ extendRows ρ zt p znew S1).map depth).Pairwise (· < ·)
+    rw [List.map_append, List.map_dropLast, hd, List.pairwise_append]
+    refine ⟨List.Pairwise.sublist (List.dropLast_sublist _) hpw, linspace_pairwise _ _ 48 h1, ?_⟩
+    intro x hx y hy
+    have hxl := pairwise_dropLast_lt_last _ hpw hDne x hx
+    rw [hlast] at hxl
+    exact lt_of_lt_of_le hxl (linspace_ge _ _ 48 h1 y hy)
+  · -- at least two rows
+    show 2 ≤ (p.rows.dropLast ++ extendRows ρ zt p znew S1).length
+    have : (extendRows ρ zt p znew S1).length = 50 := by
+      have := congrArg List.length hd
+      simpa [hlen50] using this
+    simp only [List.length_append, this]; omega
+  · -- z_min is still the first depth
+    show p.zmin = ((p.rows.dropLast ++ extendRows ρ zt p znew S1).map depth).headD 0
+    rw [hp.zmin, List.map_append, List.map_dropLast]
+    have hne2 : (p.rows.map depth).dropLast ≠ [] := by
+      intro h; rw [h] at hDrop2; simp at hDrop2
+    rw [List.headD_eq_head?_getD, List.headD_eq_head?_getD, List.head?_append]
+    have : (p.rows.map depth).dropLast.head? = (p.rows.map depth).head? := by
+      rw [List.head?_dropLast]
+      have := hp.two
+      simp only [List.length_map]
+      rw [if_pos (by omega)]
+    rw [this]
+    cases hh : (p.rows.map depth).head? with
+    | none =>
+      rw [List.head?_eq_none_iff] at hh
+      exact absurd hh hDne
+    | some v => simp
+  · -- z_max is the new last depth
+    show znew = ((p.rows.dropLast ++ extendRows ρ zt p znew S1).map depth).getLastD 0
+    rw [List.map_append, hd, List.getLastD_eq_getLast?, List.getLast?_append]
+    have hl := linspace_getLastD p.zmax znew 48
+    rw [List.getLastD_eq_getLast?] at hl
+    cases hh : (linspace p.zmax znew 50).getLast? with
+    | none =>
+      rw [List.getLast?_eq_none_iff] at hh
+      rw [hh] at hlen50; simp at hlen50
+    | some v =>
+      rw [hh] at hl
+      simp at hl
+      simp [hl]
+
+/-- the operation is applicable to the state: `extend_profile_deeper` needs `0 ≤ z_max < z_new` -/
+def OpOk (p : Profile ℝ) : Op ℝ → Prop
+  | .extendDeeper znew _ => 0 ≤ p.zmax ∧ p.zmax < znew
+  | _ => True
+
+/-- every operation of the history is applicable when it is performed -/
+def RunOk (ρ : ℝ → ℝ → ℝ → ℝ) (zt : Ztsp) : Profile ℝ → List (Op ℝ) → Prop
+  | _, [] => True
+  | p, op :: ops => OpOk p op ∧ RunOk ρ zt (step ρ zt p op) ops
+
+theorem step_inv (ρ : ℝ → ℝ → ℝ → ℝ) (zt : Ztsp) (p : Profile ℝ) (hp : Inv p) (op : Op ℝ) (hok : OpOk p op) :
+    Inv (step ρ zt p op) := by
+  by_cases hex : ∃ znew S1, op = .extendDeeper znew S1
+  · obtain ⟨znew, S1, rfl⟩ := hex
+    exact extend_inv ρ zt p hp znew S1 hok.1 hok.2
+  · exact inv_of_sameGrid hp (step_sameGrid ρ zt p hp op (fun znew S1 h => hex ⟨znew, S1, h⟩))
+      (step_fresh ρ zt p op hp.fresh)
+
+theorem inv_shape (p : Profile ℝ) (hp : Inv p) :
+    ∃ k first last mid, p.rows = first :: (mid ++ [last]) ∧ Width k (first :: (mid ++ [last])) ∧
+      StrictInc (first :: (mid ++ [last])) ∧ p.zmin = depth first ∧ p.zmax = depth last ∧ p.names.length = k := by
+  obtain ⟨k, hw, hn⟩ := hp.width
+  have h2 := hp.two
+  match hr : p.rows with
+  | [] => rw [hr] at h2; simp at h2
+  | [_] => rw [hr] at h2; simp at h2
+  | first :: b :: tl =>
+    obtain ⟨mid, last, hml⟩ : ∃ mid last, b :: tl = mid ++ [last] :=
+      ⟨(b :: tl).dropLast, (b :: tl).getLast (by simp), (List.dropLast_concat_getLast (by simp)).symm⟩
+    have hrows : p.rows = first :: (mid ++ [last]) := by rw [hr, hml]
+    refine ⟨k, first, last, mid, by rw [← hml], ?_, ?_, ?_, ?_, hn⟩
+    · rw [← hrows]; exact hw
+    · rw [← hrows]; exact hp.inc
+    · rw [hp.zmin, hrows]; simp
+    · rw [hp.zmax, hrows]
+      have e : (first :: (mid ++ [last])).map depth = (depth first :: mid.map depth) ++ [depth last] := by simp
+      rw [e, List.getLastD_concat]
 
 end TamocV.Lemmas.C14
